@@ -1,4 +1,5 @@
 import PncModel.Camx.Uamiv
+import PncModel.Camx.Slab
 /- line protocol for the binary-format models -/
 namespace Camx
 open Words Wire
@@ -88,6 +89,9 @@ def showView (v : MMView) : String :=
   s!"ok nspec={v.nspec} nx={v.nx} ny={v.ny} nz={v.nz} nt={v.steps.length} species={sp} tflag={showFlagsI tf} etflag={showFlagsI ef} hdr={showWords v.hdr} grid={showWords v.grid} data={dat}"
 
 def runBin : List String → String
+  | "slab-enc" :: toks => Slab.run ("slab-enc" :: toks)
+  | "slab-view" :: toks => Slab.run ("slab-view" :: toks)
+  | "slab-mm" :: toks => Slab.run ("slab-mm" :: toks)
   | "uamiv-write" :: toks =>
     match parseWriteIn toks with
     | some i => "ok " ++ showWords (writerContent i).encode
